@@ -41,7 +41,8 @@ class Prop:
                "two binds sending and receiving synchronously reuse the pooled message vectors and every receive call returns exactly "
                "the outstanding datagrams; the same send loop with a limited writer forwarding to the real socket (partial writes), and the "
                "public Send of a bind whose first sendmmsg fails with EIO (GSO disabled, batch resent from the pooled vector): the plain "
-               "socket still sees the batch; ONE dual-stack bind sending to alternating 127.0.0.1 / ::1 / second local IPv6 destinations from one "
+               "socket still sees the batch (also when the kernel sent the lone datagrams in front of the refused merged message before reporting EIO: "
+               "nothing may go out twice); ONE dual-stack bind sending to alternating 127.0.0.1 / ::1 / second local IPv6 destinations from one "
                "goroutine (pooled destination address reused): every datagram arrives at its own destination; plain UDP sender -> bind without "
                "UDP_GRO, bursts with empty datagrams in one recvmmsg batch after a longer batch: every non-empty datagram keeps its size, "
                "bytes and source; validates UdpGso.KernelSpec and the glue around the modelled core)"]
@@ -227,6 +228,8 @@ class Prop:
             if lfs:
                 res.append({"case": i, "kind": 2, "pos": lfs[0].get("first_diff", 0), "loopback": True})
                 self.last_rerun[i] = lfs[0]
+                for key in ("got_sizes", "error", "first_diff"):
+                    cases[i][key] = lfs[0].get(key)
             else:
                 self.last_rerun[i] = {"kind": "loopback", "delivered": "intact"}
         return res
@@ -303,6 +306,16 @@ class Prop:
     # ---- classification ---------------------------------------------------------------------
     def signature(self, case, f):
         k = case.get("kind")
+        if k == "loopback" and case.get("pass") in ("wire_eio", "wire_eio_partial"):
+            sizes, got = case.get("sizes") or [], case.get("got_sizes") or []
+            if not case.get("error"):
+                for j in range(1, len(sizes)):
+                    if got == sizes[:j] + sizes:
+                        # the datagrams in front of the refused merged message went out before the error and again in the resend
+                        return "gso-disable-retry-resends-datagrams-already-sent"
+                if len(got) > len(sizes):
+                    return "gso-disable-retry-datagram-cut-by-stale-udp-segment"
+            return "loopback-%s-%s-batch-not-delivered-intact" % (case.get("family"), case.get("pass"))
         if k == "loopback" and case.get("pass") == "rxplain":
             sc = case.get("script") or []
             burst = sc[-1]["sizes"] if sc else (case.get("sizes") or [])
